@@ -130,11 +130,11 @@ Definition panic_table : list (string * string) := [
    "amino JSON of a decoded message; legacy sign bytes, not used in block processing");
   ("x/oracle/types/messages.go|*MsgVote.GetSigners|panic|panic(_)",
    "the signer address was checked by ValidateBasic, which the ante handler runs before GetSigners is used");
-  ("x/oracle/types/params.go|CalculateRoundStartHeight|div|_ % (_ * 2)",
+  ("x/oracle/types/params.go|CalculateRoundStartHeight|div|%",
    "MODELLED round_start_u / vote_period_i (None = divide by zero); excluded by Params.Validate 1 <= p <= MaxVotePeriod (C06_round_arithmetic_total)");
-  ("x/oracle/types/params.go|CalculateVotePeriod|div|_ % (_ * 2)",
+  ("x/oracle/types/params.go|CalculateVotePeriod|div|%",
    "MODELLED round_start_u / vote_period_i (None = divide by zero); excluded by Params.Validate 1 <= p <= MaxVotePeriod (C06_round_arithmetic_total)");
-  ("x/oracle/types/params.go|Params.Validate|div|_. SlashWindow % _.VotePeriod",
+  ("x/oracle/types/params.go|Params.Validate|div|%",
    "MODELLED valid_params: VotePeriod = 0 is rejected on the line above");
   ("x/oracle/types/params.go|validateMaxMissCountPerSlashWindow|assert|_.(uint64)",
    "type fixed by the caller: parameter key table, or the transaction type checked earlier in the ante chain");
@@ -146,9 +146,9 @@ Definition panic_table : list (string * string) := [
    "type fixed by the caller: parameter key table, or the transaction type checked earlier in the ante chain");
   ("x/oracle/types/params.go|validateVoteThreshold|assert|_.(sdk.Dec)",
    "type fixed by the caller: parameter key table, or the transaction type checked earlier in the ante chain");
-  ("x/oracle/types/vote.go|IsLastBlockOfSlashWindow|div|(_)(_. BlockHeight()) % _",
+  ("x/oracle/types/vote.go|IsLastBlockOfSlashWindow|div|%",
    "MODELLED window_closing: slashWindow = 0 returns false before the division");
-  ("x/oracle/types/vote.go|IsSlashWindowClosing|div|_ % _",
+  ("x/oracle/types/vote.go|IsSlashWindowClosing|div|%",
    "MODELLED window_closing: slashWindow = 0 returns false before the division");
   ("x/oracle/types/vote_data.go|StringToOwnershipData|index|_[0]",
    "MODELLED parse_entry_go: guarded by len(data) != 2 since the repair of F07 (C06_entry_parser_total)");
@@ -282,7 +282,7 @@ Definition panic_table : list (string * string) := [
    "type fixed by the caller: parameter key table, or the transaction type checked earlier in the ante chain");
   ("x/settlement/types/params.go|validateSupportedChains|assert|_.([]*ctypes.Chain)",
    "type fixed by the caller: parameter key table, or the transaction type checked earlier in the ante chain");
-  ("x/oracle/types/params.go|CalculateRoundStartHeight|div|_ % (_ * 2)",
+  ("x/oracle/types/params.go|CalculateRoundStartHeight|div|%",
    "MODELLED round_start_u / vote_period_i (None = divide by zero); excluded by Params.Validate 1 <= p <= MaxVotePeriod (C06_round_arithmetic_total)");
   ("x/oracle/types/vote_data.go|StringToOwnershipData|index|_[0]",
    "MODELLED parse_entry_go: guarded by len(data) != 2 since the repair of F07 (C06_entry_parser_total)");
